@@ -209,7 +209,7 @@ static void op_mr(char **w, int nw)
 
 #ifdef H_C10_WITH_DATA
 void op_data(char **w, int nw);           /* h_c10_data.c */
-void op_image(char **w, int nw);
+void h_c10_data_reset(void);
 #endif
 
 sqfs_file_t *h_c10_memfile(void) { return (sqfs_file_t *)&g_file; }
@@ -236,6 +236,9 @@ int main(void)
 			g_file.size = (size_t)n;
 			g_file.nbad = 0;
 			for (int i = 0; i < NSLOT; ++i) { if (g_mr[i]) sqfs_drop(g_mr[i]); g_mr[i] = NULL; }
+#ifdef H_C10_WITH_DATA
+			h_c10_data_reset();
+#endif
 			printf("ok %ld\n", n);
 		} else if (strcmp(w[0], "bad") == 0 && nw == 3) {
 			sqfs_u64 a, b;
@@ -250,8 +253,6 @@ int main(void)
 #ifdef H_C10_WITH_DATA
 		} else if (strcmp(w[0], "dr") == 0) {
 			op_data(w, nw);
-		} else if (strcmp(w[0], "img") == 0) {
-			op_image(w, nw);
 #endif
 		} else puts("bad-op");
 		fflush(stdout);
